@@ -76,7 +76,8 @@ def build(tier="quick", must_fail=False):
             t = fs[0].core_text
             m = re.search(r"fn from\((\w+): ([^)]+)\) -> Self \{\s*Self::(\w+)\((\w+)\)\s*\}", t)
             if not m:
-                continue  # the string / &str conversions (to_owned) are outside
+                # a conversion that is not `Self::V(arg)` cannot be read as "wraps the payload": undecided, the witness search decides
+                raise Lost("impl From<..> for Operand: `from` is not a plain `Self::Variant(arg)`: %s" % re.sub(r"\s+", " ", t)[:120])
             arg, ty, V = m.group(1), m.group(2), m.group(3)
             p = Piece(fs[0])
             p.sub(r"fn from\(", "pub fn from_%s_%d(" % (V, n_from), "R20", count=1)
@@ -103,3 +104,54 @@ def describe():
                         "NOT under Verus: id_ref_any_mut (or-pattern with &mut binding unsupported), additional_operands / required_capabilities / required_extensions (iterator chains); "
                         "capability/extension lists cannot be compared with the Khronos grammar (JSON absent, not in the O4 snapshot)"],
     }
+
+
+WITNESS_PROG = r"""// generated by /verif/units/operand_reflect.py: payload -> Operand -> payload on the real crate
+#![allow(unused)]
+use rspirv::dr::Operand;
+use rspirv::spirv;
+fn main() {
+    let mut bad = 0;
+    for s in ["", "a", "main", "a\0b", "\0", "name\0", "\u{e4}\0\u{e4}"] {
+        let o = Operand::from(s.to_string());
+        if o.unwrap_literal_string() != s { bad += 1; println!("MISMATCH From<String> {:?} -> {:?}", s, o.unwrap_literal_string()); }
+        let o2 = Operand::from(s);
+        if o2.unwrap_literal_string() != s { bad += 1; println!("MISMATCH From<&str> {:?} -> {:?}", s, o2.unwrap_literal_string()); }
+        let o3: Operand = s.into();
+        if o3 != Operand::LiteralString(s.to_string()) { bad += 1; println!("MISMATCH Into {:?} -> {:?}", s, o3); }
+    }
+    for w in [0u32, 1, 0x7fff_ffff, 0x8000_0000, 0xffff_ffff, 0x0001_0000] {
+        if Operand::from(w).unwrap_literal_bit32() != w { bad += 1; println!("MISMATCH From<u32> {}", w); }
+    }
+    for w in [0u64, 1, 0xffff_ffff, 0x1_0000_0000, u64::MAX, 0x8000_0000_0000_0000] {
+        if Operand::from(w).unwrap_literal_bit64() != w { bad += 1; println!("MISMATCH From<u64> {}", w); }
+    }
+    for n in 0u32..=7000 {
+        if let Some(v) = spirv::Op::from_u32(n) { if Operand::from(v).unwrap_literal_spec_constant_op_integer() != v { bad += 1; println!("MISMATCH From<Op> {}", n); } }
+        if let Some(v) = spirv::Capability::from_u32(n) { if Operand::from(v).unwrap_capability() != v { bad += 1; println!("MISMATCH From<Capability> {}", n); } }
+        if let Some(v) = spirv::StorageClass::from_u32(n) { if Operand::from(v).unwrap_storage_class() != v { bad += 1; println!("MISMATCH From<StorageClass> {}", n); } }
+        if let Some(v) = spirv::Decoration::from_u32(n) { if Operand::from(v).unwrap_decoration() != v { bad += 1; println!("MISMATCH From<Decoration> {}", n); } }
+    }
+    for b in [0u32, 1, 2, 3, 0x10, 0x1f] {
+        if let Some(v) = spirv::MemoryAccess::from_bits(b) { if Operand::from(v).unwrap_memory_access() != v { bad += 1; println!("MISMATCH From<MemoryAccess> {}", b); } }
+    }
+    // an operand reports an id exactly when it is one of the three id kinds
+    for (o, want) in [(Operand::IdRef(7), Some(7u32)), (Operand::IdScope(8), Some(8)), (Operand::IdMemorySemantics(9), Some(9)),
+                      (Operand::LiteralBit32(7), None), (Operand::LiteralExtInstInteger(7), None), (Operand::LiteralString("x".into()), None)] {
+        if o.id_ref_any() != want { bad += 1; println!("MISMATCH id_ref_any {:?}", o); }
+    }
+    println!("checked, {} mismatches", bad);
+}
+"""
+
+
+def witness(failure, ctx):
+    p, err = ctx["vgen"]("conv_witness", WITNESS_PROG, [])
+    if p is None:
+        return {"found": False, "error": err}
+    lines = p.stdout.splitlines()
+    mm = [l for l in lines if l.startswith("MISMATCH")]
+    if p.returncode != 0 and not mm:
+        mm = ["the program panicked: " + p.stderr[-200:]]
+    return {"found": bool(mm), "exhaustive": False, "input": mm[:5], "observed": lines[-1:],
+            "how": "generated program: payload -> Operand::from -> unwrap_* on the real crate (strings incl. NUL, words, every Op / Capability / StorageClass / Decoration value)"}
